@@ -244,6 +244,7 @@ structure Fld where
   asOpt : Bool := false      -- … whose adapter is `Option<..>`
   hdrOpt : Bool := false     -- `impl TryFrom<&X> for http::HeaderMap` reads the member with `if let Some(value) = &headers.f`
   hdrParse : Bool := false   -- `impl TryFrom<&http::HeaderMap> for X` builds the member with `value.parse()` (needs `FromStr`)
+  validated : Bool := false  -- the member carries a `#[validate(..)]` attribute of any kind
   dur : Bool := false
 deriving Repr, Inhabited
 
@@ -304,6 +305,7 @@ inductive Viol
   | headerParseNoFromStr (item target : Name)
   | ctorBoxMismatch (item variant : Name)
   | fnShadowsImport (file name : Name)
+  | validatorBinderShadowed (item member : Name)
 deriving DecidableEq, Repr
 
 def typeKind (k : Name) : Bool := k == "struct".toList || k == "enum".toList || k == "alias".toList
@@ -404,10 +406,17 @@ def ctorBoxViols (it : Item) : List Viol :=
     | some pb => if pb != b then [Viol.ctorBoxMismatch it.name v] else []
     | none => []) else []
 
+/-- an `Option` member whose name is one of the validator derive's own locals -/
+def binderShadowed (fd : Fld) : Bool :=
+  fd.opt && ((fd.validated && fd.name == "errors".toList) || (fd.nested && fd.name == "entry".toList))
+
 def shapeViols (m : Mod) : List Viol :=
   (m.items.flatMap fun it =>
     -- a free function named like an identifier its own file imports (`fn get` next to `use axum::routing::{get, ..}`)
     (if it.kind == "fn".toList && ((m.imports.filter (·.1 == it.file)).flatMap (·.2)).contains it.name then [Viol.fnShadowsImport it.file it.name] else []) ++
+    -- validator_derive 0.20 unwraps an `Option` member with `if let Some(ref <member>) = self.<member>` and refers to its own
+    -- locals `errors` (every validator) and `entry` (nested) inside: a member of that name captures them
+    (if it.kind == "struct".toList && it.val then (it.fields.filter (binderShadowed ·)).map (fun fd => Viol.validatorBinderShadowed it.name fd.name) else []) ++
     (if it.kind == "ctor".toList && hasDup it.params then [Viol.dupParam it.name] else []) ++
     (if it.kind == "struct".toList && hasDup (it.fields.map (·.name)) then [Viol.dupMember it.name] else []) ++
     (if it.kind == "enum".toList && hasDup it.variants then [Viol.dupMember it.name] else []) ++
@@ -460,6 +469,7 @@ def classOf (m : Mod) : Viol → Option String
   | .aliasCycle _ => some "KnownAliasCycle"
   -- F01-17: common-affix trimming of the operation ids leaves a server handler called like an HTTP verb
   | .fnShadowsImport f n => if f == "server".toList && routingFns.contains n then some "KnownHandlerShadowsRouting" else none
+  | .validatorBinderShadowed _ _ => some "KnownValidatorBinderShadowed"
   | _ => none
 
 structure RErr where
@@ -510,6 +520,8 @@ def explains : Viol → RErr → Bool
   | .undefinedConst n, e => codeIn e.code ["E0425"] && e.name == n
   | .headerParseNoFromStr it tgt, e => e.ikind == "impl".toList && e.iname == it && e.name == tgt && codeIn e.code ["E0277"]
   | .ctorBoxMismatch it _, e => e.ikind == "impl".toList && e.iname == it && codeIn e.code ["E0308"]
+  -- reported at the `derive(Validate)` of the struct: the macro's `errors.add(..)` / `entry` now mean the member
+  | .validatorBinderShadowed it _, e => codeIn e.code ["E0599", "E0308", "E0277", "E0609", "E0614"] && e.iname == it
   -- the name is defined twice in the value namespace (E0255); every use of it in `router` is then ambiguous / ill-typed
   | .fnShadowsImport f n, e => e.file == f && (codeIn e.code ["E0255"] || (e.iname == "router".toList) || e.iname == n || e.name == n)
 
